@@ -20,6 +20,16 @@ type Case struct {
 	id     string
 	fields map[string]string
 	order  []string
+	dirty  bool // a field was set by a batch preparer after parsing / generation
+}
+
+// set adds or overwrites a field (used by batch preparers that embed what they observed)
+func (c *Case) set(k, v string) {
+	if _, ok := c.fields[k]; !ok {
+		c.order = append(c.order, k)
+	}
+	c.fields[k] = v
+	c.dirty = true
 }
 
 func (c *Case) get(k, d string) string {
@@ -106,6 +116,44 @@ func registerKind(genName string, gen genFn, caseKind string, run runFn) {
 	}
 }
 
+// Batch preparers: a kind whose cases are executed in real time (kind=timed) runs all the cases of
+// a shard concurrently BEFORE the case file is written and stores what it observed in the case
+// itself (`obs=`), so that the Lean driver judges exactly the trace the implementation produced.
+// In replay mode the cases are re-executed and the case file is rewritten with the fresh observation.
+type prepFn func(cases []*Case)
+
+var preparers = map[string]prepFn{}
+
+func registerPreparer(caseKind string, p prepFn) { preparers[caseKind] = p }
+
+func prepare(cases []*Case) {
+	for kind, p := range preparers {
+		var mine []*Case
+		for _, c := range cases {
+			if c.get("kind", "op") == kind {
+				mine = append(mine, c)
+			}
+		}
+		if len(mine) > 0 {
+			p(mine)
+		}
+	}
+}
+
+func writeCases(path string, cases []*Case) {
+	cf, err := os.Create(path)
+	if err != nil {
+		fmt.Fprintln(os.Stderr, err)
+		os.Exit(2)
+	}
+	w := bufio.NewWriter(cf)
+	for _, c := range cases {
+		w.WriteString(c.line() + "\n")
+	}
+	w.Flush()
+	cf.Close()
+}
+
 func runCase(c *Case) string {
 	if r, ok := runners[c.get("kind", "op")]; ok {
 		return r(c)
@@ -150,6 +198,13 @@ func main() {
 			}
 		}
 		f.Close()
+		prepare(cases)
+		for _, c := range cases {
+			if c.dirty {
+				writeCases(*casesPath, cases)
+				break
+			}
+		}
 	} else {
 		all := generate(kind, *tier, *seed, *only)
 		for i, c := range all {
@@ -157,17 +212,8 @@ func main() {
 				cases = append(cases, c)
 			}
 		}
-		cf, err := os.Create(*casesPath)
-		if err != nil {
-			fmt.Fprintln(os.Stderr, err)
-			os.Exit(2)
-		}
-		w := bufio.NewWriter(cf)
-		for _, c := range cases {
-			w.WriteString(c.line() + "\n")
-		}
-		w.Flush()
-		cf.Close()
+		prepare(cases)
+		writeCases(*casesPath, cases)
 	}
 	rf, err := os.Create(*resPath)
 	if err != nil {
